@@ -98,7 +98,7 @@ def main():
     cfg = gen_config()
     res = Result(PID)
     T = tier()
-    N = 6 if T == "quick" else 9
+    N = 6 if T == "quick" else 12
     inst = [("traj", 3), ("traj", 5), ("traj", 7)] + [("poly", n) for n in range(0, N + 1)]
     res.functions.update(["a_trajpoly%d_%s" % (n, f) for n in (3, 5, 7) for f in (["gen", "c0", "c1", "c2", "pos", "vel", "acc"] + (["c3", "jer"] if n == 7 else []))] +
                          ["a_poly_eval", "a_poly_eval_", "a_poly_evar", "a_poly_evar_", "a_poly_swap", "a_poly_swap_"])
